@@ -137,7 +137,7 @@ def rand_relay(rng, n_ops):
         elif r < 0.18:
             ops.append("spull.1.%s.%s%s" % (rng.choice(["n1", "0", "1", "2"]), rng.choice(["n1", "0", "5000"]), rng.choice(["", "", ".rtsp"])))
         elif r < 0.42:
-            ops.append("%s.1.0" % rng.choice(["psucc", "pfail", "pdone", "psucc", "pfail"]))
+            ops.append("%s.1.0" % rng.choice(["psucc", "pfail", "pdone", "psuccm", "pfail"]))
         elif r < 0.50:
             ops.append(rng.choice(["xpull.1", "xpull.1", "hxpull.1", "hxpull.a"]))
         elif r < 0.68:
